@@ -13,6 +13,8 @@ pub mod c13;
 pub mod c14;
 pub mod c15;
 pub mod c16;
+pub mod c17;
+pub mod c18;
 pub mod c19;
 
 use serde_json::Value;
@@ -33,6 +35,8 @@ pub fn run(id: &str, tier: &str) -> i32 {
         "C14" => c14::run(tier),
         "C15" => c15::run(tier),
         "C16" => c16::run(tier),
+        "C17" => c17::run(tier),
+        "C18" => c18::run(tier),
         "C19" => c19::run(tier),
         "C07" => c07::run(tier, "C07"),
         "C08" => c07::run(tier, "C08"),
@@ -87,6 +91,8 @@ fn replay_one(id: &str, v: &Value) -> Option<String> {
         "C14" => c14::replay(v),
         "C15" => c15::replay(v),
         "C16" => c16::replay(v),
+        "C17" => c17::replay(v),
+        "C18" => c18::replay(v),
         "C19" => c19::replay(v),
         _ => Some(format!("no replay driver for {}", id)),
     }
